@@ -178,6 +178,34 @@ def pumped(t, max_len=4096):
     return pre + unit * n + suf
 
 
+_NEST_MARKERS = [['-', '*'], ['-'], ['*', '+', '-'], ['1.', '1)'], ['1.'], ['>'], ['-', '1.'], ['>', '-'], ['> -', '> *']]
+_NEST_INNER = ['a', '- a', '* a', '1. a', '> a', '- - a', '```', '# a', 'a\n', '[a]: b', '| a |']
+
+
+def nested_pump(t, max_depth=45):
+    """Containers that deepen line by line: line i is indented to the content column of line i-1 and opens the next
+    marker of a short cycle, optionally followed by more container openers -- the shape on which work that is redone
+    per nesting level multiplies (at most about 90 levels, below the documented limit of 100)."""
+    cyc = t.choice(_NEST_MARKERS)
+    inner = t.choice(_NEST_INNER)
+    depth = 2 + t.below(max_depth - 1) if t.chance(160) else 2 + t.below(10)
+    if len(inner.split()) > 2 or ' ' in cyc[0]:
+        depth = min(depth, 30)
+    lines = []
+    col = 0
+    for i in range(depth):
+        m = cyc[i % len(cyc)]
+        lines.append(' ' * col + m + ' ' + inner)
+        col += len(m) + 1 if not m.startswith('>') else 0
+        if m.startswith('>'):
+            # quote markers are repeated, not indented under
+            lines[-1] = ('> ' * i)[:200] + m + ' ' + inner if cyc == ['>'] else lines[-1]
+    text = '\n'.join(lines) + '\n'
+    if t.chance(60):
+        text += '\n' + 'tail\n'
+    return text
+
+
 def any_text(t, max_len=300, with_grammar=True):
     """(pool label, text) — the mixture used by the input-agnostic properties."""
     k = t.weighted([(3, 'G2-lines'), (3, 'G3-mutated'), (2, 'G1-raw'), (2, 'G0-corpus')]
